@@ -100,6 +100,10 @@ def main():
     OUTNAME = arg("--out", "result.json")
     dirs = sorted(d for d in os.listdir(os.path.join(VERIF, "seeded"))
                   if os.path.exists(os.path.join(VERIF, "seeded", d, "patch.diff")) and d.startswith(only))
+    # changes that a later repair of /repo made harmless (their own demonstration passes with the
+    # patch applied) are kept on disk but not counted
+    superseded = [d for d in dirs if "superseded" in json.load(open(os.path.join(VERIF, "seeded", d, "meta.json")))]
+    dirs = [d for d in dirs if d not in superseded]
     if props:
         dirs = [d for d in dirs if json.load(open(os.path.join(VERIF, "seeded", d, "meta.json")))["property"][:3] in props]
     # partition by property so that the same check never runs twice at once (evidence file)
@@ -114,7 +118,7 @@ def main():
         res = [r for rs in ex.map(lambda kb: worker(kb[0], kb[1], tier), enumerate(buckets)) for r in rs]
     res.sort(key=lambda r: r["dir"])
     head = sh(f"git -C {REPO} rev-parse --short HEAD")[1].strip()
-    summary = {"repo_head": head, "tier": tier, "total": len(res),
+    summary = {"repo_head": head, "tier": tier, "superseded": superseded, "total": len(res),
                "caught": sum(1 for r in res if r.get("caught")),
                "not_caught": [r["dir"] for r in res if not r.get("caught")], "results": res}
     if not only and not props:
